@@ -5,7 +5,7 @@ import gen
 PID = 'C03'
 RULE = ('each evaluation is one (expression e, start index i, offset k) triple on one or two generated traces: (reval e k) at i is '
         'compared with e evaluated after explicitly stepping to i+k (oracle, same interpreter), indices before/after are compared, '
-        'out-of-range offsets must give #f without evaluating e (print-instrumented), and (e@j)@k is compared with e@(j+k); every '
+        'out-of-range offsets must give #f without evaluating e (print-instrumented), (e@j)@k is compared with e@(j+k), and for e that steps a trace itself the positions after e@k must be the positions before; every '
         'command is also run on the extracted Coq model. distinct = distinct (e,i,k); non-trivial = e reads a signal or INDEX/TS')
 
 
@@ -62,6 +62,13 @@ def gen_case(rng, cid, two, per):
         else:
             cmds.append(['evalstr', '111', f'(list (reval (reval {e} {j}) {k}) #f {ie})'])
             checks.append(('compose', b2, e, i, (j, k)))
+        # e moves the index itself: afterwards every trace must stand where it stood before (the saved positions win)
+        if rng.random() < 0.4:
+            s_ = rng.choice([1, 2, -1, 3])
+            stp = f'(step {rng.choice(tids)} {s_})' if two and rng.random() < 0.7 else f'(step {s_})'
+            b3 = len(cmds)
+            cmds.append(['evalstr', '111', f'(list (reval (do {stp} {e}) {k}) {ie})'])
+            checks.append(('moving', b3, f'(do {stp} {e})', i, k))
         cmds.append(['evalstr', '111', f'(step {-i})'])
     return {'id': cid, 'cmds': cmds, 'checks': checks, 'tids': tids}
 
@@ -108,6 +115,13 @@ def oracle(case, impl):
                 want = 'ok ( B0 ( ' + 'I%d ' % i * n + ') )'
                 if lib.canon(res[base + 1]) != lib.canon(want):
                     return f'(reval {e} {k}) at index {i} out of range gave {res[base + 1]} expected {want}'
+            elif kind == 'moving':
+                if len(res) <= base or not res[base].startswith('ok'):
+                    continue
+                a = split_list(res[base])
+                want = '( ' + 'I%d ' % i * n + ')'
+                if lib.canon(a[1]) != lib.canon(want):
+                    return f'indices after (reval {e} {k}) at {i}, where e moves a trace itself: {a[1]} expected {want} (positions must be restored whatever e did)'
             else:
                 if len(res) <= base or not res[base].startswith('ok'):
                     continue
